@@ -26,6 +26,19 @@ na = []
 for pid in all_ids:
     if pid not in U.PROPS or not U.PROPS[pid].get("claimed", True):
         na.append({"property_id": pid, "reason": U.NOT_APPLICABLE.get(pid, "no check built yet in this round; the design (DESIGN.md section 2) has a model-checking layer for it")})
+# which properties each engine serves, derived from the unit definitions (E2 layers are named by hand: they are
+# plain harness code over the real transition functions)
+E2_LAYERS = {"C01", "C02", "C05", "C07", "C11", "C16", "C18", "C19", "C20"}
+ENGINES = []
+for e in U.ENGINES:
+    e = dict(e)
+    if e["name"] == "vsched":
+        e["serves_properties"] = sorted(pid for pid, p in U.PROPS.items() if any("vsched" in u.get("engines", []) for u in p["units"]))
+    elif e["name"] == "xstate":
+        e["serves_properties"] = sorted(E2_LAYERS)
+    else:
+        e["serves_properties"] = sorted(U.PROPS)
+    ENGINES.append(e)
 m = {
     "version": 1,
     "setup_cmd": "./check --setup",
@@ -36,7 +49,7 @@ m = {
         "source_commits": [],
         "add_only": True,
     },
-    "engines": U.ENGINES,
+    "engines": ENGINES,
     "checks": checks,
     "not_applicable": na,
     "notes": U.NOTES,
